@@ -25,7 +25,29 @@ T = {
  "c18b": ("C18", "WaveDrag: no write of CDw at/below Mcrit for non-symmetric surfaces", "full-span, same Problem evaluated above and then below the onset", "caught at once (the ladders run on one live component)"),
  "c01b": ("C01", "VortexMesh.setup: mesh index map not reversed for right-half meshes (no ground plane)", "symmetric right-half mesh without ground plane", "caught at once"),
  "c02b": ("C02", "ComputePointMassLoads: np.abs kills the complex-step derivative of the spanwise distance", "point mass between two nodes; totals w.r.t. point_mass_locations / span", "caught at once by C02 and C01"),
+ "c19c": ("C19", "DemuxSurfaceMesh reverse product writes into blocks whose start forgets the cumulative sum", "three or more surfaces, reverse mode, MPhys wrapper", "caught at once (C19 basis enumeration of the (de)multiplexers for 1-3 surfaces, fwd and rev)"),
+ "c08c": ("C08", "VortexMesh: ground-plane point accumulates h*n per ground-effect surface", "ground effect on two or more surfaces", "caught at once (two-surface ground-effect sets)"),
+ "c14c": ("C14", "getFullMesh(left_mesh=...) negates z as well as y", "half mesh with non-zero z (CRM wind-tunnel shape, z offset)", "caught at once (CRM:alpha_2.75 and offsets in the lattice)"),
+ "c16c": ("C16", "FuelLoads halves the reserve fuel for full-span surfaces too (same as c04a, produced independently)", "full-span wingbox, distributed fuel, non-zero reserve", "caught at once by C16 and C04"),
+ "c20c": ("C20", "generate_mesh rejects an even num_y only for the rect wing", "CRM wing types with even num_y", "caught at once (the rejection lattice crosses num_y with both wing types)"),
+ "c12c": ("C12", "LoadTransfer honours a fem_origin key for wingbox dictionaries (nodes do not)", "wingbox surface dictionary that also carries fem_origin", "missed at first; C11 now has a wingbox dictionary with the key and takes the node line from ComputeNodes"),
+ "c10c": ("C10", "Transform: reference axis switched to z for elements with |dx| > |dy|", "sweep beyond 45 degrees (or steep winglet) and Iy != Iz", "missed at first; C10 now has 60-degree swept and winglet layouts"),
+ "c02c": ("C02", "SolveMatrix.solve_linear reverse branch '+='", "aerostructural model, LinearBlockGS/Krylov on the coupled group, reverse mode", "caught (C02 linear-solver oracle introduced after c02a)"),
+ "c07c": ("C07", "full-span Taper interpolates with the left tip for both sides", "full-span mesh with unequal semi-spans and taper != 1", "missed at first; C07 now reflects Geometry-group results on full-span meshes with unequal semi-spans"),
+ "c13c": ("C13", "full-span Taper break points at +-span instead of +-span/2", "full-span surface with taper != 1", "caught at once"),
+ "c04c": ("C04", "VonMisesWingbox: inboard end chosen once per surface (undoes fix F8 for full-span wings)", "full-span wingbox, stresses on the +y half", "caught by C07 (C04 only compares the modelled half, as its statement says)"),
+ "c11c": ("C11", "LoadTransfer moments from lumped mesh-row forces with a wrong slice for interior rows", "nx >= 4", "C11 quick had nx <= 3 (thorough had 4); nx = 4 moved into the quick tier"),
  "c03b": ("C03", "CreateRHS leaves entries below the threshold unwritten", "a load component non-zero earlier and (near) zero now on the same Problem", "caught at once (C03 zero-valued special point; C10 unit loads)"),
+ "c09d": ("C09", "CompressibleVLMStates (rotational): rotational velocity evaluated at the force points instead of the collocation points", "compressible=True, rotational=True, non-zero omega", "caught at once by C09 (compressible vs incompressible at Mach 0 with rotation)"),
+ "c18d": ("C18", "ViscousDrag fully laminar branch subtracts the turbulent transition term (CDv negative, grows with Re)", "with_viscous, k_lam = 1.0", "caught at once by C18 and C01 (laminar-fraction axis introduced after c06b)"),
+ "c15d": ("C15", "VonMisesWingbox combination 3: upper-skin strength factor only divides the direct stress", "wingbox with strength_factor_for_upper_skin != 1 and non-zero torsion/shear", "caught at once"),
+ "c06d": ("C06", "LiftDrag: side-force contribution to drag with the wrong sign (value and partials consistent)", "beta != 0 and a surface with non-zero summed side force", "caught at once (sideslip and asymmetric/dihedral wings in the lattice)"),
+ "c05d": ("C05", "EvalVelMtx right-half re-ordering also reverses the chordwise panel axis", "symmetric RIGHT-half mesh with nx >= 3", "caught at once (right halves in the lattice, independent vortex-ring reference)"),
+ "c16d": ("C16", "StructuralCG: y of the cg forced to zero for full-span surfaces too", "full-span structure that is not mirror symmetric in mass", "caught at once"),
+ "c17d": ("C17", "Equilibrium: residual normalised by |W| (smoothed) instead of W", "negative load factor", "caught at once (load factor -1 is in the alphabet)"),
+ "c20d": ("C20", "unify_mesh shifts a VIEW of the user's first section mesh in place", ">= 3 sections, user-supplied section meshes, shift_uni_mesh=True, leading edges of sections 0/1 not coincident", "missed at first: C20 had no multi-section workflow among its admissible configurations, took its snapshot of the user's arrays after the model was built and only looked at top-level arrays; now every array reachable from the dictionaries is copied before the first library call, and the multi-section workflow (1-4 sections, user/generated meshes, aligned/offset, shift on/off) is part of the menu"),
+ "c01d": ("C01", "EvalVelMtx.compute_partials: rear-filament derivative of interior rows uses row 0 (broadcast)", "nx >= 4 (an interior chordwise panel row)", "missed by the quick tier at first (nx <= 3; the thorough tier had nx = 4): one nx = 4 configuration per component moved into the quick tier"),
+ "c03d": ("C03", "RotateToWindFrame.compute_partials returns early when alpha is unchanged (forgets beta)", "compressible model, two linearisations with the same alpha and different beta", "missed at first: no design point of any history differed from its predecessor in ONE input only; C03 now has, for every model and every input, the history linearise at P0 / move only that input / linearise, and a compressible full-span sideslip model"),
 }
 root = "/verif/seeded"
 for m, (prop, what, needs, note) in T.items():
